@@ -72,7 +72,8 @@ def ir_corpus(rng, n_docs):
         if i % 3 == 2:
             docs.append(("void", cbdoc.CbDoc(rng, n_handlers=10, max_depth=rng.choice((2, 3)))))
         else:
-            docs.append(("value", exprdoc.ExprDoc(rng, n_targets=3, max_depth=rng.choice((2, 3)), kinds=CF_KINDS)))
+            docs.append(("value", exprdoc.ExprDoc(rng, n_targets=3, max_depth=rng.choice((2, 3)), kinds=CF_KINDS,
+                                                  void_path_hazard=(i % 4 == 1))))
     return docs
 
 
